@@ -1,5 +1,5 @@
 // Runtime contract check of MergedDictionary (attached to harper-core/src/spell/merged_dictionary.rs):
-// for every pair of child dictionaries drawn from all subsets of {ab, Ab, AB, b, B} (in both orders,
+// for every pair of child dictionaries drawn from all subsets of {ab, Ab, a, b, B} (in both orders,
 // plus the empty and single-child cases) and every query over the same words plus "", "ba", "abc":
 // contains_word / contains_exact_word equal the union of the children, and
 // get_correct_capitalization_of / get_word_metadata are decided by the first child that knows the word.
@@ -13,7 +13,7 @@ fn rac_dict(words: &[&str]) -> Arc<dyn Dictionary> {
 
 #[test]
 fn rac_merged_union() {
-    let universe = ["ab", "Ab", "AB", "b", "B"];
+    let universe = ["ab", "Ab", "a", "b", "B"];
     let queries = ["ab", "Ab", "AB", "aB", "b", "B", "", "ba", "abc"];
     let mut subsets: Vec<Vec<&str>> = vec![];
     for mask in 0u32..(1 << universe.len()) {
@@ -44,6 +44,27 @@ fn rac_merged_union() {
             if want_member { nontrivial += 1; }
             let got = (merged.contains_word(&qc), merged.contains_exact_word(&qc),
                        merged.get_correct_capitalization_of(&qc).map(|w| w.to_vec()), merged.get_word_metadata(&qc).is_some());
+            // fuzzy search on the merged dictionary returns the closest max_results words of the union
+            for cap in [1usize, 2, 10] {
+                let res = merged.fuzzy_match(&qc, 2, cap);
+                let mut union: Vec<(u8, Vec<char>)> = vec![];
+                for c in &children { for r in c.fuzzy_match(&qc, 2, 100) { if !union.iter().any(|(_, w)| w[..] == *r.word) { union.push((r.edit_distance, r.word.to_vec())); } } }
+                union.sort();
+                let mut why: Option<String> = None;
+                if res.len() > cap { why = Some(format!("{} results exceed the cap {}", res.len(), cap)); }
+                if res.windows(2).any(|w| w[0].edit_distance > w[1].edit_distance) { why = Some("results not ordered by distance".to_string()); }
+                if res.len() < cap.min(union.len()) { why = Some(format!("only {} results although the parts offer {}", res.len(), union.len())); }
+                if let (Some(last), true) = (res.last(), union.len() > res.len()) {
+                    // nothing strictly closer than the worst returned result may be left out
+                    if union.iter().any(|(d, w)| *d < last.edit_distance && !res.iter().any(|r| *r.word == w[..])) {
+                        why = Some(format!("a closer word of the union is missing (cap {})", cap));
+                    }
+                }
+                if let Some(w) = why {
+                    println!("RAC-CEX merged_union {{\"children\": {:?}, \"query\": {:?}, \"fuzzy\": {:?}}}", cfg, q, w);
+                    panic!("merged fuzzy search is not the closest-k of the union");
+                }
+            }
             if got != (want_member, want_exact, want_cap.clone(), want_meta) {
                 println!("RAC-CEX merged_union {{\"children\": {:?}, \"query\": {:?}, \"got(member,exact,cap,meta)\": {:?}, \"want\": {:?}}}",
                          cfg, q, got, (want_member, want_exact, want_cap, want_meta));
